@@ -236,7 +236,7 @@ def oracle(case, out):
                           ",".join("%s@%s" % (k[0], show_ver(v)) for k, v in sorted(sol.items()))))
         return finds
     if res != "ok":
-        finds.append(("resolve-crash:" + res.split(":")[0], "resolve returned " + res))
+        finds.append(("resolve-crash:" + res.split(":")[0], "index load / resolve returned " + res))
         return finds
     A = parse_assignment(f.get("A", ""))
     for p, vs in A.items():
@@ -244,7 +244,7 @@ def oracle(case, out):
             finds.append(("two-versions-one-class", "%s resolved to %s" % (p, [show_ver(v) for v in vs])))
         for v in vs:
             if v not in byp.get(p, {}):
-                finds.append(("version-not-in-index", "%s@%s" % (p, show_ver(v))))
+                finds.append(("version-not-in-index", "resolved version %s@%s was never published in the index" % (p, show_ver(v))))
     # expected edges, from the case itself
     expected = [("root", d) for d in sorted(root)]
     for p in sorted(A):
@@ -327,7 +327,7 @@ def oracle(case, out):
             check_deps(prec, ds)
             p, v = prec.split("@", 1)
             if sorted(ds) != sorted({d[0] for d in byp.get(p, {}).get(parse_ver(v), [])}):
-                finds.append(("lock-wrong", "dependency names of " + prec))
+                finds.append(("lock-wrong", "lock entry %s lists other dependency names than the index" % prec))
     # package map
     M = f.get("M", "")
     if not M.startswith("ok{"):
@@ -338,7 +338,7 @@ def oracle(case, out):
             n, q = item.split("=", 1)
             b = binding.get(("root", n))
             if b not in (None, "!") and q.split("@", 1)[1] != b:
-                finds.append(("map-wrong", "top-level " + item))
+                finds.append(("map-wrong", "package map binds top-level %s but the edge is bound to %s" % (item, b)))
         seen = set()
         for item in filter(None, pk_s.split(",")):
             lhs, q = item.split("=", 1)
@@ -346,7 +346,7 @@ def oracle(case, out):
             seen.add((parent, n))
             b = binding.get((parent, n))
             if b not in (None, "!") and q.split("@", 1)[1] != b:
-                finds.append(("map-wrong", item))
+                finds.append(("map-wrong", "package map binds %s but the edge is bound to %s" % (item, b)))
         for parent, d in expected:
             if parent != "root" and (parent, d[0]) not in seen:
                 finds.append(("map-wrong", "missing %s/%s" % (parent, d[0])))
@@ -373,10 +373,37 @@ def oracle(case, out):
 
 # --------------------------------------------------------------------------- generators
 
+# The semver-precedence zoo of prerelease tags: numeric vs alphanumeric identifiers, different
+# lengths with a common prefix (rc / rc.1, alpha / alpha.1 / alpha.beta, beta.2 / beta.2.fix),
+# rc.2 vs rc.10, leading zeros (not valid semver, but `SemVer` is deserialised without
+# validation), hyphens inside identifiers, upper case.  Build metadata is dropped by
+# `SemVer` (only `FullSemVer` keeps it), so it cannot occur in an index or a requirement.
+ZOO = ["alpha", "alpha.1", "alpha.beta", "alpha.beta.1", "beta", "beta.2", "beta.2.fix", "beta.11", "rc", "rc.1", "rc.2",
+       "rc.10", "rc.01", "rc1", "RC", "1", "2", "10", "01", "0.3.7", "x.7.z.92", "x-y", "x-y.1", "-1"]
+
+
+def gen_pre(rng):
+    return rng.weighted([("", 14), ("alpha", 2), ("rc1", 1), (None, 4)]) or rng.choice(ZOO)
+
+
+def pre_neighbour(rng, tag):
+    """a tag in a precedence-relevant relation to `tag`: extended / truncated by one identifier,
+    numeric identifier changed in length, or another zoo tag"""
+    ids = tag.split(".") if tag else []
+    how = rng.below(4)
+    if how == 0 or not ids:
+        return ".".join(ids + [rng.choice(["1", "0", "x", "10"])])
+    if how == 1 and len(ids) > 1:
+        return ".".join(ids[:-1])
+    if how == 2 and ids[-1].isdigit():
+        return ".".join(ids[:-1] + [rng.choice([str(int(ids[-1]) + 1), ids[-1] + "0", "0" + ids[-1]])])
+    return rng.choice(ZOO)
+
+
 def gen_version(rng, small):
     top = 2 if small else 3
     M = rng.weighted([(0, 4), (1, 5), (2, 2)])
-    v = (M, rng.below(top + 1), rng.below(top + 1), rng.weighted([("", 7), ("alpha", 2), ("rc1", 1)]))
+    v = (M, rng.below(top + 1), rng.below(top + 1), gen_pre(rng))
     return v
 
 
@@ -389,6 +416,8 @@ def gen_req(rng, target_versions):
     form = rng.weighted([("M", 3), ("Mm", 5), ("Mmp", 6), ("=", 3), ("M_p", 1)])
     M, m, p, pre = v
     if form == "=":
+        if pre and rng.chance(1, 5):
+            return ("=", (M, m, p, pre_neighbour(rng, pre)))
         return ("=", v if rng.chance(5, 6) else (M, m, p, ""))
     # wiggle downwards so that a later minor/patch has to be taken
     if rng.chance(1, 2) and m > 0:
@@ -445,7 +474,9 @@ def gen_universe(rng, npk_max, nver_max, with_lock, with_edit=False):
             if rng.chance(1, 3) and len(vs) < nver_max + 1:
                 vs.add((v[0], v[1] + rng.range(0, 1), v[2] + 1, ""))
             if rng.chance(1, 6) and len(vs) < nver_max + 1:
-                vs.add((v[0], v[1], max(0, v[2] - rng.range(0, 1)), rng.choice(["alpha", "rc1"])))
+                vs.add((v[0], v[1], max(0, v[2] - rng.range(0, 1)), rng.choice(["alpha", "rc1"] + ZOO[:12])))
+            if v[3] and rng.chance(1, 3) and len(vs) < nver_max + 2:
+                vs.add((v[0], v[1], v[2], pre_neighbour(rng, v[3])))
         vers[p] = sorted(vs)
     # planted solution (mostly-valid stream): one chosen version per (package, class); the chosen
     # versions and the root only require what chosen versions provide
@@ -522,7 +553,7 @@ def gen_universe(rng, npk_max, nver_max, with_lock, with_edit=False):
 
 
 GRID = [(0, 0, 1, ""), (0, 1, 0, ""), (0, 1, 1, ""), (0, 2, 0, ""), (1, 0, 0, ""), (1, 1, 0, ""),
-        (1, 1, 1, ""), (1, 2, 0, ""), (2, 0, 0, ""), (1, 1, 0, "alpha"), (0, 1, 0, "alpha")]
+        (1, 1, 1, ""), (1, 2, 0, ""), (2, 0, 0, ""), (1, 1, 0, "alpha"), (1, 1, 0, "alpha.1"), (0, 1, 0, "alpha")]
 
 
 def grid_reqs(grid):
@@ -567,6 +598,157 @@ def exhaustive_chain():
                         root = [("a", "p0", ("^", 1, None, None))] + ([("b", "p1", rr)] if rr else [])
                         out.append(show_case(index, root))
     return out
+
+
+# --------------------------------------------------------------------------- laws of the implementation's order / matching
+
+LAW_CORES = [(1, 0, 0), (1, 0, 1), (0, 1, 0)]
+
+
+def law_pool():
+    vs = []
+    for c in LAW_CORES:
+        vs.append(c + ("",))
+        vs += [c + (t,) for t in ZOO]
+    vs.append((2, 0, 0, ""))
+    vs.append((0, 2, 0, ""))
+    reqs = [("^", 1, None, None), ("^", 1, 0, None), ("^", 1, 0, 0), ("^", 1, 0, 1), ("^", 1, None, 1), ("^", 0, None, None),
+            ("^", 0, 1, None), ("^", 0, 1, 0), ("^", 0, 2, None), ("^", 2, None, None), ("^", 2, 0, 0)]
+    reqs += [("=", v) for v in vs]
+    return vs, reqs
+
+
+def laws_line(vs, reqs):
+    return "LAWS V:%s Q:%s" % (",".join(show_ver(v) for v in vs), ",".join(show_req(r) for r in reqs))
+
+
+def check_laws(ck, exe_impl, exe_model, mode):
+    """Direct oracles on the implementation's own `Ord`/`Eq`/matching over the zoo pool (no model):
+    cmp reflexive, antisymmetric, transitive, Equal iff ==; the index cache keeps every distinct
+    version; VersionReq::matches and BucketVersion agree with the property's words.  Then the same
+    tables against the model.  Returns (version pairs, (requirement, version) pairs) around which
+    the pipeline search has to look, unlawful ones first."""
+    vs, reqs = law_pool()
+    line = laws_line(vs, reqs)
+    rc, out, err = core.run_lines(exe_impl, [], [line], env=scratch_env())
+    f = fields_of(out[0]) if out and out[0].startswith("laws ") else None
+    if f is None:
+        ck.obligation("laws-run:impl", "internal", False, "rc=%s %s %s" % (rc, out[:1], err[-300:]))
+        return [], []
+    n = len(vs)
+    cmp = f["cmp"].split("/")
+    eq = f["eq"].split("/")
+    flip = {"<": ">", ">": "<", "=": "="}
+    unlawful, laws_broken = [], {}
+
+    def bad(law, i, j):
+        laws_broken.setdefault(law, []).append((i, j))
+        if (i, j) not in unlawful and (j, i) not in unlawful and i != j:
+            unlawful.append((i, j))
+    for i in range(n):
+        if cmp[i][i] != "=" or eq[i][i] != "1":
+            bad("reflexivity", i, i)
+        for j in range(n):
+            if cmp[i][j] != flip[cmp[j][i]]:
+                bad("antisymmetry", i, j)
+            if (cmp[i][j] == "=") != (eq[i][j] == "1"):
+                bad("Equal-iff-==", i, j)
+            if (eq[i][j] == "1") != (vs[i] == vs[j]):
+                bad("==-is-structural", i, j)
+    le = [[c in "<=" for c in row] for row in cmp]
+    for i in range(n):
+        for j in range(n):
+            if le[i][j]:
+                for k in range(n):
+                    if le[j][k] and not le[i][k]:
+                        bad("transitivity", i, k)
+    if int(f.get("bt", "0")) != len(set(vs)):
+        laws_broken.setdefault("index-cache-keeps-every-version", []).append((int(f.get("bt", "0")), len(set(vs))))
+    ck.count("order_law_pairs_checked", n * n)
+    ck.count("order_law_triples_checked", n * n * n)
+    for law, wit in laws_broken.items():
+        ck.hist("order_laws_broken", law, len(wit))
+    # matching against the property's words (req_views_agree on the implementation)
+    m = f["m"].split("/")
+    bc = f["bc"].split("/")
+    bk = f["bk"].split(",")
+    rv = []
+    for qi, q in enumerate(reqs):
+        for vi, v in enumerate(vs):
+            want = satisfies(q, v)
+            want_bc = klass(v) == req_class(q)
+            if (bc[qi][vi] == "1") != want_bc or (mode == "fix" and (m[qi][vi] == "1") != want):
+                rv.append((q, v))
+    ck.count("matching_pairs_checked", len(reqs) * n)
+    for vi, v in enumerate(vs):
+        kl = klass(v)
+        want = show_ver(v) if kl[0] == "pre" else ("0.%d" % kl[1] if kl[0] == "minor" else str(kl[1]))
+        if bk[vi] != want:
+            rv.append((("=", v), v))
+    # against the model
+    disagree = []
+    if exe_model:
+        rc2, out2, err2 = core.run_lines(exe_model, [], [line])
+        g = fields_of(out2[0]) if out2 and out2[0].startswith("laws ") else None
+        if g is None:
+            ck.obligation("laws-run:model", "internal", False, "rc=%s %s %s" % (rc2, out2[:1], err2[-300:]))
+        else:
+            mc = g["cmp"].split("/")
+            for i in range(n):
+                for j in range(n):
+                    if cmp[i][j] != mc[i][j] and (i, j) not in unlawful and (j, i) not in unlawful:
+                        disagree.append((i, j))
+            for k, gk in (("eq", "eq"), ("bk", "bk"), ("bc", "bc"), ("m", "m" + mode), ("sd", "sd")):
+                if f.get(k) != g.get(gk):
+                    ck.hist("laws_tables_differing_from_model", k)
+            ck.coverage["semver_order_vs_model"] = "%d of %d ordered pairs differ" % (len(disagree) + sum(
+                1 for (i, j) in unlawful if cmp[i][j] != mc[i][j]), n * n)
+            if disagree or any(f.get(k) != g.get(gk) for k, gk in (("eq", "eq"), ("bk", "bk"), ("bc", "bc"), ("m", "m" + mode))):
+                ck.obligation("correspondence:semver-order-and-matching", "correspondence", False,
+                              "the implementation's cmp/==/matches/bucket tables differ from the model on the zoo pool; first pairs: %s" % [
+                                  (show_ver(vs[i]), cmp[i][j], show_ver(vs[j]), "model " + mc[i][j]) for i, j in (unlawful + disagree)[:6]])
+    pairs = [(vs[i], vs[j]) for i, j in unlawful] + [(vs[i], vs[j]) for i, j in disagree if i < j]
+    return (pairs, rv, {law: [(show_ver(vs[i]), show_ver(vs[j])) if law != "index-cache-keeps-every-version" else (i, j)
+                              for i, j in wit[:5]] for law, wit in laws_broken.items()})
+
+
+def universes_around(pairs, rv, limit=14):
+    """smallest universes around versions the implementation compares / matches suspiciously: both
+    published in one package; one published and the other requested exactly, by range, as lower
+    bound; the same behind a transitive dependency"""
+    out = []
+    for a, b in pairs[:limit]:
+        M, m, p = a[:3]
+        rel = (M, m, p + 1, "")
+        rng_req = ("^", M, m, None)
+        lb = ("^", M, m, p)
+        both = [("p0", a, []), ("p0", b, [])]
+        for idx in (both, both + [("p0", rel, [])], [("p0", b, []), ("p0", a, []), ("p0", rel, [])]):
+            for root in ([("x", "p0", ("=", a))], [("x", "p0", ("=", b))], [("x", "p0", ("=", a)), ("y", "p0", ("=", b))],
+                         [("x", "p0", rng_req)], [("x", "p0", lb)], [("x", "p0", rng_req), ("y", "p0", ("=", a))]):
+                out.append(show_case(idx, root))
+        for pub, req in ((a, b), (b, a)):
+            for idx in ([("p0", pub, [])], [("p0", pub, []), ("p0", rel, [])]):
+                out.append(show_case(idx, [("x", "p0", ("=", req))]))
+                out.append(show_case(idx, [("x", "p0", ("=", req)), ("y", "p0", rng_req)]))
+                out.append(show_case(idx, [("x", "p0", lb)]))
+                # transitive
+                out.append(show_case(idx + [("p1", (1, 0, 0, ""), [("d", "p0", ("=", req))])], [("a", "p1", ("^", 1, None, None))]))
+                out.append(show_case(idx + [("p1", (1, 0, 0, ""), [("d", "p0", ("=", req))]), ("p1", (1, 1, 0, ""), [])],
+                                     [("a", "p1", ("^", 1, None, None))]))
+        out.append(show_case(both + [("p1", (1, 0, 0, ""), [("d", "p0", ("=", a))])], [("a", "p1", ("^", 1, None, None)), ("b", "p0", ("=", b))]))
+    for q, v in rv[:limit]:
+        M, m, p = v[:3]
+        rel = (M, m, p + 1, "")
+        for idx in ([("p0", v, [])], [("p0", v, []), ("p0", rel, [])]):
+            out.append(show_case(idx, [("x", "p0", q)]))
+            out.append(show_case(idx + [("p1", (1, 0, 0, ""), [("d", "p0", q)])], [("a", "p1", ("^", 1, None, None))]))
+    seen, res = set(), []
+    for c in out:
+        if c not in seen:
+            seen.add(c)
+            res.append(c)
+    return res
 
 
 def corpus():
@@ -649,6 +831,8 @@ def run_cases(ck, cases, exe_impl, exe_model, mode=None):
         f = fields_of(o)
         minputs.append(c + (" A:" + f.get("A", "") if f.get("res") == "ok" else "")
                        + (" B:" + f.get("A2", "") if f.get("res2") == "ok" and f.get("UP") == "0" else ""))
+    if not exe_model:
+        return impl_out, ["MODEL-MISSING"] * len(cases)
     rc2, model_out, e2 = core.run_sharded(exe_model, [], minputs)
     if rc2:
         ck.obligation("correspondence-run:model", "internal", False, "rc=%s %s" % (rc2, e2))
@@ -657,6 +841,8 @@ def run_cases(ck, cases, exe_impl, exe_model, mode=None):
 
 def detect_mode(ck, exe_impl, exe_model):
     """Which matcher does the tree implement?  Decided by the refuted-lemma witnesses."""
+    if not exe_model:
+        return "fix"
     w = ["I:p0@1.3.0() R:a>p0:1.2.3", "I:p0@1.0.0-alpha();p0@1.2.0() R:a>p0:1,b>p0:=1.0.0-alpha"]
     impl_out, model_out = run_cases(ck, w, exe_impl, exe_model)
     votes = set()
@@ -677,6 +863,7 @@ def detect_mode(ck, exe_impl, exe_model):
 def compare(ck, cases, impl_out, model_out, mode):
     for case, a, m in zip(cases, impl_out, model_out):
         f = fields_of(a)
+        no_model = m == "MODEL-MISSING"
         mf = fields_of(m.split(" cur{")[0])
         res = f.get("res", "?")
         index, root, locked = parse_case(case)
@@ -699,12 +886,15 @@ def compare(ck, cases, impl_out, model_out, mode):
         finds = oracle(case, a)
         for key, text in finds:
             ck.hist("oracle_findings", key)
-            ck.violation(key, text, {"case": case, "impl": a, "model": m, "how_to_replay": "./verif check C20 --replay <this file>"})
+            ck.violation(key, "%s; universe [%s]" % (text[:150], case[:200]),
+                         {"case": case, "impl": a, "model": m, "how_to_replay": "./verif check C20 --replay <this file>"})
         # 2. translation validation of the solver's answer by the extracted checker / brute force:
         #    a rejected answer is a violation of the property on the implementation
         known_keys = sorted({k for k, _ in finds if k in ("lookup-minor-gap", "lookup-prerelease-first", "self-dependency")})
         other_keys = [k for k, _ in finds if k not in known_keys]
         tv = []
+        if no_model:
+            continue
         if m.startswith("MODEL-ERROR"):
             ck.obligation("model-run", "internal", False, case + "\n" + m)
         elif res == "ok":
@@ -719,7 +909,7 @@ def compare(ck, cases, impl_out, model_out, mode):
                 ck.count("bruteforce_skipped")
         if tv:
             key = "self-dependency" if "self-dependency" in known_keys else "invalid-answer"
-            ck.violation(key, "; ".join(tv), {"case": case, "impl": a, "model": m})
+            ck.violation(key, "%s; universe [%s]" % ("; ".join(tv)[:170], case[:200]), {"case": case, "impl": a, "model": m})
             if not finds:
                 # the model-free oracle should have seen it too
                 ck.obligation("oracle-vs-checker", "correspondence", False, "case %s\n%s\nimpl %s\nmodel %s" % (case, tv, a[:500], m[:500]))
@@ -760,7 +950,7 @@ def compare(ck, cases, impl_out, model_out, mode):
             finds2 = oracle(case2, out2)
             for key, text in finds2:
                 ck.hist("oracle_findings", "phase2:" + key)
-                ck.violation("phase2:" + key, "after editing the manifest and keeping the lock file: " + text,
+                ck.violation("phase2:" + key, "after editing the manifest and keeping the lock file: %s; universe [%s]" % (text[:120], case[:170]),
                              {"case": case, "impl": a, "model": m})
             if f.get("UP") != b.get("UP"):
                 disagree.append("is_lock_file_up_to_date: impl %s, model %s" % (f.get("UP"), b.get("UP")))
@@ -768,7 +958,11 @@ def compare(ck, cases, impl_out, model_out, mode):
                 if b.get("V2") != "1":
                     ck.violation("phase2:invalid-answer", "the second assignment is rejected by valid_solution for the edited manifest",
                                  {"case": case, "impl": a, "model": m})
-                for k in ("A2", "E2", "SD2", "K2", "M2"):
+                if parse_assignment(f.get("A2", "")) != parse_assignment(b.get("A2", "")) and sorted(
+                        (p, sorted(vs)) for p, vs in parse_assignment(f.get("A2", "")).items()) != sorted(
+                        (p, sorted(vs)) for p, vs in parse_assignment(b.get("A2", "")).items()):
+                    disagree.append("A2 differs (model[%s]): impl %s / model %s" % (mode, f.get("A2", "")[:300], b.get("A2", "")[:300]))
+                for k in ("E2", "SD2", "K2", "M2"):
                     if f.get(k) != b.get(k):
                         disagree.append("%s differs (model[%s]): impl %s / model %s" % (k, mode, f.get(k, "")[:300], b.get(k, "")[:300]))
             elif f.get("res2") == "NoSolution":
@@ -793,13 +987,30 @@ def run(ck):
     ck.coq("Props.C20", clean=(ck.tier == "thorough"))
     ok = ck.harness(["c20"])
     exe_model = ck.model("C20.v")
-    if not ok or not exe_model:
+    if not ok:
         return
+    # (if the proofs or the extraction are broken the direct oracles still run, without the model)
     exe_impl = core.harness_bin("c20")
     mode = detect_mode(ck, exe_impl, exe_model)
     ck.coverage["matcher_implemented_by_tree"] = {"cur": "unchanged SemVerPrefix::matches (model matches_cur)",
                                                    "fix": "repaired matcher (model matches_fix)"}[mode]
     ck.log("tree implements matcher:", mode)
+    # laws of the implementation's order and matching on the precedence zoo; wherever they fail or
+    # differ from the model, the pipeline is run on the smallest universes around those versions
+    pairs, rv, broken = check_laws(ck, exe_impl, exe_model, mode)
+    around = universes_around(pairs, rv)
+    ck.coverage["search_universes_around_suspicious_versions"] = len(around)
+    if around:
+        ck.log("order/matching suspicious on %d version pairs, %d (requirement, version) pairs: searching %d universes" % (
+            len(pairs), len(rv), len(around)))
+        nviol = len(ck.violations)
+        io, mo = run_cases(ck, around, exe_impl, exe_model)
+        compare(ck, around, io, mo, mode)
+        if broken and len(ck.violations) == nviol:
+            # a law of the order fails on the implementation but no universe built around it failed
+            ck.violation("semver-order-law", "Ord/Eq for SemVer break %s" % broken, {"laws": broken, "line": laws_line(*law_pool())})
+    elif broken:
+        ck.violation("semver-order-law", "Ord/Eq for SemVer break %s" % broken, {"laws": broken, "line": laws_line(*law_pool())})
     rng = core.SplitMix64(ck.seed * 1000003 + 20)
     cases = corpus()
     ncorpus = len(cases)
@@ -825,7 +1036,7 @@ def run(ck):
     ck.coverage["universes_validated_against_impl"] = len(cases)
     ck.coverage["corpus"] = ncorpus
     ck.coverage["rule"] = ("universe = synthetic on-disk index (1-5 packages, 1-5 versions each over majors 0-2 / minors, patches 0-3 / "
-                           "prereleases alpha, rc1; 0-3 named dependencies per version with requirements M, M.m, M.m.p, M._.p, =v, =v-pre "
+                           "prereleases alpha, rc1 and the precedence zoo (numeric / alphanumeric identifiers, dot-prefixes, rc.2 vs rc.10, leading zeros, hyphens), with precedence-neighbours of published prereleases published or requested exactly; 0-3 named dependencies per version with requirements M, M.m, M.m.p, M._.p, =v, =v-pre "
                            "aimed at or around existing versions; cycles and self-dependencies allowed) + root manifest with 0-3 index "
                            "dependencies + optionally a lock file (a complete valid non-minimal solution, or random existing versions) "
                            "+ optionally an edit of the root manifest (loosen / change / drop / add a dependency) replayed against the "
@@ -833,7 +1044,7 @@ def run(ck):
                            "non-trivial = resolution succeeded with >= 2 dependency edges; distinct by exact text")
     ck.coverage["partial"] = ("pubgrub itself is validated answer by answer, not proved; git/path dependencies and the snapshot are not "
                               "modelled (index dependencies only)")
-    ck.trusted += ["extraction: ExtrOcamlBasic + ExtrOcamlNativeString", "harness bin c20 (synthetic index written with PackageIndex::save)",
+    ck.trusted += ["extraction: ExtrOcamlBasic + ExtrOcamlNativeString", "harness bin c20 (synthetic index files written in the crate's PackageFormat)",
                    "generator + model-free oracle in checks/c20.py (SplitMix64, VERIF_SEED)"]
     ck.assumptions += ["pubgrub is external: each answer is validated by the extracted checker (success) or brute force (failure)",
                        "commit ids of index packages are pairwise distinct (the harness makes them so)"]
